@@ -30,7 +30,7 @@ pub fn marker_version(v: &Vrp) -> Option<(usize, usize)> {
 }
 
 #[derive(Clone, Copy, PartialEq)]
-pub enum Emphasis { Incomplete, FetchFaults, Ordering }
+pub enum Emphasis { Incomplete, FetchFaults, Ordering, Mixed }
 
 /// Produces the next world version from the previous one.
 pub fn evolve(prev: &World, version: usize, rng: &mut Rng, em: Emphasis) -> World {
@@ -69,6 +69,7 @@ pub fn evolve(prev: &World, version: usize, rng: &mut Rng, em: Emphasis) -> Worl
     // faults for this version
     if version > 0 {
         for c in 0..w.cas.len() {
+            let em = if em == Emphasis::Mixed { if rng.bool() { Emphasis::Incomplete } else { Emphasis::FetchFaults } } else { em };
             match em {
                 Emphasis::Incomplete => if rng.chance(1, 2) { let f = *rng.pick(&[PointFault::MissingFile, PointFault::WrongHash]); apply_point_fault(&mut w, c, f, rng); },
                 Emphasis::FetchFaults => if rng.chance(1, 2) {
@@ -78,7 +79,7 @@ pub fn evolve(prev: &World, version: usize, rng: &mut Rng, em: Emphasis) -> Worl
                         _ => { let f = POINT_FAULTS[rng.usize(POINT_FAULTS.len())]; apply_point_fault(&mut w, c, f, rng); }
                     }
                 },
-                Emphasis::Ordering => {}
+                Emphasis::Ordering | Emphasis::Mixed => {}
             }
         }
         // a module is unreachable as a whole
@@ -111,7 +112,7 @@ pub fn read_store(dir: &std::path::Path) -> BTreeMap<String, (Vec<u8>, u64, i64,
     out
 }
 
-fn run_hist(ctx: &mut Ctx, rep: &mut Report, prop: &'static str, em: Emphasis) {
+pub fn run_hist(ctx: &mut Ctx, rep: &mut Report, prop: &'static str, em: Emphasis) {
     let mut rng = ctx.rng(prop);
     let mut b = match Builder::new() { Ok(b) => b, Err(e) => { rep.inconclusive(e); return } };
     let histories = ctx.tier.pick(10usize, 200);
@@ -163,13 +164,19 @@ fn run_hist(ctx: &mut Ctx, rep: &mut Report, prop: &'static str, em: Emphasis) {
                     }
                     for m in missing.iter().take(2) { rep.violation("C03/missing-item", format!("expected but not served: {m} (decisions {:?})", model.decisions), replay.clone()); }
                 }
+                "C01" => {
+                    for s in surplus.iter().take(2) { rep.violation("C01/unvalidated-payload-served/history", format!("served but not carried by the publication point version in effect: {s} (decisions {:?})", model.decisions), replay.clone()); }
+                }
+                "C02" => {
+                    for m in missing.iter().take(2) { rep.violation("C02/valid-payload-dropped/history", format!("expected from the publication point version in effect but not served: {m} (decisions {:?})", model.decisions), replay.clone()); }
+                }
                 _ => {
                     for s in surplus.iter().take(2) { rep.violation(format!("{prop}/surplus-item"), format!("served but not expected: {s} (decisions {:?})", model.decisions), replay.clone()); }
                     for m in missing.iter().take(2) { rep.violation(format!("{prop}/missing-item"), format!("expected but not served: {m} (decisions {:?})", model.decisions), replay.clone()); }
                 }
             }
             // store read-back (C04, C05)
-            if prop != "C03" {
+            if prop == "C04" || prop == "C05" {
                 let store = read_store(&env.dir);
                 for (c, sv) in &model.stored {
                     let key = w.ca_repository(*c);
